@@ -318,6 +318,144 @@ impl Prio3Visitor for V01<'_> {
     }
 }
 
+/// Several tasks on ONE Prio3 instance that share some of (nonce sequence, context, verification key)
+/// and differ in the rest, verified interleaved on one thread. Anything carried over from one call to
+/// the next (a memoised XOF state keyed by only part of what it depends on, a cached derivation)
+/// turns into a rejected honest report here; with random nonces and one context it never collides.
+struct V01Shared<'a> {
+    rng: &'a mut Rng64,
+}
+
+impl Prio3Visitor for V01Shared<'_> {
+    fn visit<T: Kinded, P: Xof<32>>(&mut self, ctx: &mut Ctx, p: &Params, cfg: &VdafCfg, vdaf: Prio3<T, P, 32>)
+    where
+        T::Field: ZField,
+    {
+        let rng = &mut *self.rng;
+        let desc = format!("{} aggs={} proofs={} xof={}", p.describe(), cfg.aggs, cfg.proofs, if cfg.hmac_xof { "hmac" } else { "turboshake" });
+        let sig_base = format!("{}|", p.kind.name());
+        let n_tasks = 2 + rng.usize_below(2);
+        let batch = 1 + rng.usize_below(3);
+        let share_nonce = rng.chance(4, 5);
+        let share_ctx = rng.chance(1, 4);
+        let share_key = rng.bool();
+        let base_ctx = {
+            let c = gen_ctx(rng, cfg.hmac_xof);
+            if c.len() > 100 { c[..40].to_vec() } else { c }
+        };
+        let base_key: [u8; 32] = rng.array_edge();
+        let style = rng.below(3);
+        let base_nonces: Vec<[u8; 16]> = (0..batch)
+            .map(|j| match style {
+                0 => {
+                    let mut n = [0u8; 16];
+                    n[15] = j as u8;
+                    n
+                }
+                1 => [0x5au8; 16],
+                _ => rng.array(),
+            })
+            .collect();
+        struct Rep {
+            m: Vec<u128>,
+            psb: Vec<u8>,
+            isb: Vec<Vec<u8>>,
+            nonce: [u8; 16],
+        }
+        let mut tasks: Vec<(Vec<u8>, [u8; 32], Vec<Rep>)> = vec![];
+        let mut anomaly: Option<String> = None;
+        for t in 0..n_tasks {
+            let mut vctx = base_ctx.clone();
+            if !share_ctx {
+                match t {
+                    0 => {}
+                    1 => vctx.push(1),
+                    _ => {
+                        if vctx.is_empty() {
+                            vctx.push(9)
+                        } else {
+                            let k = vctx.len() - 1;
+                            vctx[k] ^= 0x80;
+                        }
+                    }
+                }
+            }
+            let key = if share_key { base_key } else { rng.array() };
+            let mut reps = vec![];
+            for j in 0..batch {
+                let nonce = if share_nonce { base_nonces[j] } else { rng.array() };
+                let m = p.gen_measurement(rng);
+                let tape = gen_random_tape(rng, random_size(p, cfg));
+                match catch(|| vdaf.shard_with_random(&vctx, &T::meas(p, &m), &nonce, &tape)) {
+                    Ok(Ok((ps, shares))) => reps.push(Rep { m, psb: enc(&ps, &mut anomaly), isb: shares.iter().map(|s| enc(s, &mut anomaly)).collect(), nonce }),
+                    _ => return, // the plain driver reports sharding failures
+                }
+            }
+            tasks.push((vctx, key, reps));
+        }
+        let mut stats = WireStats::default();
+        let mut all_ok = true;
+        for round in 0..2 {
+            for j in 0..batch {
+                let mut order: Vec<usize> = (0..n_tasks).collect();
+                if round == 1 {
+                    rng.shuffle(&mut order);
+                }
+                for &t in &order {
+                    let (vctx, key, reps) = &tasks[t];
+                    let rep = &reps[j];
+                    let out = verify_report_simple::<_, 32>(&vdaf, key, vctx, &(), &rep.nonce, &rep.psb, &rep.isb, &mut no_tamper, &mut stats, &mut anomaly);
+                    ctx.eval();
+                    let wit = |extra: serde_json::Value| json!({"config": desc, "tasks": n_tasks, "task": t, "report": j, "round": round, "shared": {"nonce": share_nonce, "ctx": share_ctx, "key": share_key},
+                        "ctx": hex(vctx), "nonce": hex(&rep.nonce), "measurement": p.meas_json(&rep.m), "detail": extra});
+                    match out {
+                        Outcome::Finished(o) => {
+                            let ob: Vec<Vec<u8>> = o.iter().map(|x| x.get_encoded().unwrap()).collect();
+                            let mut tot = vec![0u128; p.output_len()];
+                            for b in &ob {
+                                let sz = b.len() / p.output_len().max(1);
+                                for (k, ch) in b.chunks(sz.max(1)).enumerate().take(p.output_len()) {
+                                    let mut v = 0u128;
+                                    for (i, byte) in ch.iter().enumerate() {
+                                        v |= (*byte as u128) << (8 * i);
+                                    }
+                                    tot[k] = addmod(tot[k], v, p.p);
+                                }
+                            }
+                            let want: Vec<u128> = p.contribution(&rep.m).iter().map(|x| x % p.p).collect();
+                            if tot != want {
+                                all_ok = false;
+                                ctx.violation(format!("{sig_base}interleaved-tasks|output-shares"), "output shares of an honest report do not sum to its contribution when tasks sharing nonce/context/key are verified interleaved", wit(json!(null)));
+                            }
+                        }
+                        Outcome::Rejected(stage, e) => {
+                            all_ok = false;
+                            ctx.violation(format!("{sig_base}interleaved-tasks|rejected@{stage}"), "honest report rejected when tasks sharing nonce/context/key are verified interleaved on one instance", wit(json!({"stage": stage, "err": e})));
+                        }
+                        Outcome::Panicked(stage, pi) => {
+                            all_ok = false;
+                            ctx.violation(format!("{sig_base}interleaved-tasks|panic@{stage}|{}", pi.class()), "panic while verifying an honest report (interleaved tasks)", wit(json!({"panic": pi.message, "at": pi.location})));
+                        }
+                        Outcome::Desync(sd) => {
+                            all_ok = false;
+                            ctx.violation(format!("{sig_base}interleaved-tasks|desync"), "aggregators did not finish together (interleaved tasks)", wit(json!(sd)));
+                        }
+                    }
+                }
+            }
+        }
+        if all_ok {
+            ctx.count("interleaved_task_sets_completed");
+            if share_nonce && !share_ctx {
+                ctx.count("interleaved_same_nonce_other_ctx");
+            }
+            if share_nonce && share_ctx && !share_key {
+                ctx.count("interleaved_same_nonce_same_ctx_other_key");
+            }
+        }
+    }
+}
+
 pub fn run(ctx: &mut Ctx) {
     let mut rng = ctx.rng("c01");
     let n_cfg = ctx.budget(8_000, 400_000) / ctx.nshards as u64;
@@ -351,6 +489,20 @@ pub fn run(ctx: &mut Ctx) {
             ctx.violation(format!("{}|constructor-refused", kind.name()), "admissible parameters refused by the constructor",
                 json!({"config": p.describe(), "cfg": format!("{cfg:?}"), "err": e}));
         }
+    }
+    // Interleaved tasks sharing nonce / context / key on one instance.
+    let n_shared = (ctx.budget(3_200, 64_000) / ctx.nshards as u64).max(7);
+    let mut rng = ctx.rng("c01-shared");
+    for i in 0..n_shared {
+        let kind = Kind::ALL[(i as usize + ctx.shard) % Kind::ALL.len()];
+        let p = gen_params(&mut rng, kind, 80);
+        let mut cfg = gen_cfg(&mut rng, kind, false);
+        cfg.aggs = 2 + (cfg.aggs % 4);
+        cfg.proofs = cfg.proofs.min(2);
+        ctx.trace(|| format!("shared cfg {i}: {} {:?}", p.describe(), cfg));
+        let mut rng2 = Rng64::derive(ctx.seed, &["c01-shared-case"], i * 977 + ctx.shard as u64);
+        let mut v = V01Shared { rng: &mut rng2 };
+        let _ = with_prio3(ctx, &p, &cfg, &mut v);
     }
     // A few long inputs per shard (thousands of elements; several 4 KiB encoding blocks; chunk
     // lengths around multiples of 8/32), serial and multithreaded.
